@@ -12,10 +12,11 @@ CFG = dict(
                               "go/types and `go build` as the judges of whether a generated file compiles",
                               "the reader of generated files in harness/c18_obs.go (go/parser; unknown shapes are reported as differences)",
                               "hand-written model Extract/Model.v + Decimal.v of extract/extract.go, tied by row-level correspondence on every generated file and by the regenerated restricted/defaultMinorVersion/replacer tables"],
-    level_text="Coq theorems (unbounded: all declaration lists for names/forms, all interfaces for the forwarding wrappers, all integers and all dyadic rationals for constant printing; refutation witnesses for float/complex constants, the restricted-by-name rule, irregular interfaces, uncompilable wrappers and imports) about an executable model of extract.genContent/fixConst (Y) and of the contract (G); Y is tied to the source on every run by running the real extract.Extractor on standard-library and seeded random packages and comparing every generated row, import, build tag and the compile verdict with Y inside Coq; G is validated against rows computed from go/types.",
-    level_note="Trusted: Coq kernel + vm_compute, no axioms; translator tr-extract; harness (output reader, go/types view); go/types, go/constant and go build as references. extract.go is modelled by hand and tied by correspondence (quick: 42 std + 126 random packages, about 6,000 rows).",
+    level_text="Coq theorems (unbounded: all declaration lists for names/forms, all interfaces for the forwarding wrappers, all integers, all byte strings and all dyadic rationals for constant printing; refutation witnesses for float/complex constants, the restricted-by-name rule, irregular interfaces, uncompilable wrappers and imports) about an executable model of extract.genContent/fixConst (Y) and of the contract (G); Y is tied to the source on every run by running the real extract.Extractor on standard-library and seeded random packages and comparing every generated row, import, build tag and the compile verdict with Y inside Coq; G is validated against rows computed from go/types.",
+    level_note="Trusted: Coq kernel + vm_compute, no axioms; translator tr-extract; harness (output reader, go/types view); go/types, go/constant and go build as references. extract.go is modelled by hand and tied by correspondence (quick: 14 fixed + 10 seed-drawn std packages + 156 random packages with sibling packages, about 5,000 rows).",
     technique="Coq proof by induction over declaration and parameter lists + exact rational model of big.Float printing + regenerated tables + model/implementation correspondence evaluated in Coq",
-    assumptions=["Extractor.Include/Exclude/Tag are empty; GOOS is neither android nor illumos (the syscall special case of genContent is not exercised)",
+    assumptions=["string constants are printed/read in the model's ASCII quoting (every non-printable byte as \\xHH), not strconv.Quote's exact spelling; the bound VALUE is compared with go/constant on every generated constant",
+                 "Extractor.Include/Exclude/Tag are empty; GOOS is neither android nor illumos (the syscall special case of genContent is not exercised)",
                  "untyped float constants are go/constant fractions (both components below 4096 bits); constants kept as *big.Float by go/constant are outside the model of fixConst",
                  "the extractor is run in its documented mode (GO111MODULE=off, import paths resolved in GOPATH/GOROOT); go/types built with gotypesalias=0 as yaegi's go.mod implies",
                  "C18_const_float_partial is conditional on the model's exponent search answering (Some); the correspondence checks that it does on every generated constant"],
